@@ -1253,6 +1253,10 @@ class ChoicePayloadDecoder(ConstructedPayloadDecoderBase):
             if not isTagged:
                 break
 
+        if not len(asn1Object):
+            raise error.PyAsn1Error(
+                'No alternative inside the explicitly tagged CHOICE %s' % (tagSet,))
+
         yield asn1Object
 
 
